@@ -13,7 +13,7 @@ BigThorough == BigQuick \cup {<<2048, 2049, 0>>, <<8192, 0, 0>>, <<16, 256, 255>
 
 \* extra cases requested by the orchestrator (the length tuples, PBKW costs and v1 key lengths of the official test
 \* vectors, read from the vector files of the working tree): a JSON file named by PV_EXTRA, or "none"
-Extra == IF IOEnv.PV_EXTRA = "none" THEN [tuples |-> << >>, pw |-> << >>, v1secret |-> << >>] ELSE JsonDeserialize(IOEnv.PV_EXTRA)
+Extra == IF IOEnv.PV_EXTRA = "none" THEN [tuples |-> << >>, pw |-> << >>, v1secret |-> << >>, v1public |-> << >>] ELSE JsonDeserialize(IOEnv.PV_EXTRA)
 SeqSet(q) == {q[k] : k \in 1..Len(q)}
 
 VARIABLE c      \* the case descriptor being printed
@@ -39,8 +39,8 @@ Next ==
            \E kl \in (CASE kind = "local" -> {32}
                         [] kind = "public" /\ ver # 1 -> {PublicKeyLen(ver)}
                         [] kind = "secret" /\ ver # 1 -> {SecretKeyLen(ver)}
-                        [] kind = "public" -> {294}
-                        [] OTHER -> V1SecretLens) :
+                        [] kind = "public" -> {294} \cup SeqSet(Extra.v1public)
+                        [] OTHER -> V1SecretLens \cup SeqSet(Extra.v1secret)) :
               c' = <<"keyid", ver, kind, kl>>
 
 RndLen(ver) == IF ver = 2 THEN 24 ELSE 32
